@@ -25,7 +25,7 @@
                                     the Examples and on every generated case by
                                     harness/c08.py (judge). *)
 From Coq Require Import List Ascii String ZArith Bool.
-From YP Require Import Outcome PyStr Generated PathParser PathPrinter C08Spec RtStep RtSeg RtInt RtRender RtTables.
+From YP Require Import Outcome PyStr Generated PathParser PathPrinter C08Spec RtStep RtSeg RtInt RtRender RtTables RtCanon RtClauses.
 Import ListNotations.
 Open Scope string_scope.
 
@@ -66,37 +66,67 @@ Theorem C08_key_specials_cover :
     mem_ascii c (key_specials (sep_char sp)) = false -> top_plain (sep_char sp) c = true.
 Proof. exact key_specials_cover. Qed.
 
-(* ---- clauses 2-4, stated (not proved) ---- *)
-Definition canon (sp' : sep) (text : string) : outcome string :=
-  do u <- parse Auto false text; Ok (stringify (Some sp') u).
-
-Definition C08_canonical_statement : Prop :=
+(* ---- clause 2: the canonical string re-parses to the same segments, in
+   either notation, and is a fixed point of str().
+   [canon sp' text] = str() of YAMLPath(text) with the separator set to sp'.
+   Guards: [wfc] (= [wf] + what str() cannot re-express: a back-slash right
+   before an escapable symbol, "*" in a quoted key, a regex with all ten
+   delimiter candidates; F21 inside); [dot_text_ok] = the property's own
+   exclusion; a canonical dot text that is blank to str.strip() is the empty
+   path (only a single key made of tabs / line feeds: not escapable). ---- *)
+Theorem C08_canonical_partial :
   forall (sp sp' : sep) (l : list sseg) (c : string),
-    wfc sp l = true -> (sp = Dot -> first_not_in ["/"%char] (render_ref sp l) = true) ->
+    wfc sp l = true -> dot_text_ok sp (render_ref sp l) = true ->
     canon sp' (render_ref sp l) = Ok c ->
+    (sp' = Dot -> (is_nil l || nonblank c) = true) ->
     parse (Forced sp') true c = Ok (segs_of l).
+Proof. exact canonical. Qed.
+Print Assumptions C08_canonical_partial.
 
-Definition C08_fixpoint_statement : Prop :=
+(* the same when the canonical text is handed to YAMLPath() afresh (separator
+   inference): a canonical dot text starting with "/" is excluded *)
+Theorem C08_canonical_auto_partial :
   forall (sp sp' : sep) (l : list sseg) (c : string),
-    wfc sp l = true -> (sp = Dot -> first_not_in ["/"%char] (render_ref sp l) = true) ->
+    wfc sp l = true -> dot_text_ok sp (render_ref sp l) = true ->
     canon sp' (render_ref sp l) = Ok c ->
-    path_str (Forced sp') c = Ok c.
+    (sp' = Dot -> (is_nil l || nonblank c) = true) -> dot_text_ok sp' c = true ->
+    parse Auto true c = Ok (segs_of l).
+Proof. exact canonical_auto. Qed.
+Print Assumptions C08_canonical_auto_partial.
 
-Definition C08_eq_iff_statement : Prop :=
+Theorem C08_fixpoint_partial :
+  forall (sp sp' : sep) (l : list sseg) (c : string),
+    wfc sp l = true -> dot_text_ok sp (render_ref sp l) = true ->
+    canon sp' (render_ref sp l) = Ok c ->
+    (sp' = Dot -> (is_nil l || nonblank c) = true) ->
+    path_str (Forced sp') c = Ok c.
+Proof. exact fixpoint. Qed.
+Print Assumptions C08_fixpoint_partial.
+
+(* the printer's algorithm: ensure_escaped for a one-character symbol is a
+   left-to-right scan (all strings), and on a text written with back-slash
+   escapes it back-slashes exactly the missing symbols *)
+Theorem C08_escape_symbol_scan :
+  forall (d : ascii) (v : string), Ascii.eqb d "\"%char = false -> escape_symbol v (str1 d) = scan1 d v.
+Proof. exact escape_symbol_scan. Qed.
+Theorem C08_ensure_escaped_written :
+  forall (ds E : list ascii) (k : string),
+    mem_ascii "\"%char E = true -> forallb (fun d => negb (Ascii.eqb d "\"%char)) ds = true ->
+    no_bs_before ds k = true ->
+    ensure_escaped (esc_with E k) (map str1 ds) = esc_with (rev ds ++ E)%list k.
+Proof. exact ensure_escaped_esc. Qed.
+
+(* ---- clause 3: two paths compare equal exactly when their segments are equal.
+   Guard [no_dot_key] = listed finding F23. ---- *)
+Theorem C08_eq_iff_partial :
   forall (sp1 sp2 : sep) (l1 l2 : list sseg),
     wfc sp1 l1 = true -> wfc sp2 l2 = true ->
     forallb no_dot_key l1 = true -> forallb no_dot_key l2 = true ->      (* F23 *)
-    (sp1 = Dot -> first_not_in ["/"%char] (render_ref sp1 l1) = true) ->
-    (sp2 = Dot -> first_not_in ["/"%char] (render_ref sp2 l2) = true) ->
+    dot_text_ok sp1 (render_ref sp1 l1) = true -> dot_text_ok sp2 (render_ref sp2 l2) = true ->
     exists b, y_eq (y_new (render_ref sp1 l1)) (render_ref sp2 l2) = Ok b
               /\ (b = true <-> segs_of l1 = segs_of l2).
-
-Definition C08_append_pop_statement : Prop :=
-  forall (sp : sep) (l : list sseg) (x : sseg),
-    l <> [] -> wfc sp l = true -> wfc sp (l ++ [x]) = true ->
-    (sp = Dot -> first_not_in ["/"%char] (render_ref sp l) = true) ->
-    let p := y_append (body (sep_char sp) x) (y_new (render_ref sp l)) in
-    exists sg p', y_pop p = (Ok sg, p') /\ fst (y_escaped p') = Ok (segs_of l).
+Proof. exact eq_iff. Qed.
+Print Assumptions C08_eq_iff_partial.
 
 (* ---- non-vacuity: keys with every escapable character are well-formed, and
    every segment kind occurs ---- *)
@@ -144,6 +174,30 @@ Example C08_parse_render_search_nonvacuous :
   /\ wf Dot [((Some TSearch, ASearch true MContains every_escapable every_escapable), plain_style)] = true
   /\ render_ref Dot sample_searches
      = "x[full\ name!=""Some User\'s Name""][!lvl>=5\ \%][.=~#^a/b|c$#][enc^ENC\[]".
+Proof. vm_compute. repeat split; reflexivity. Qed.
+
+(* non-vacuity of the guards of clauses 2-3: every escapable character in keys,
+   attributes and terms; both target notations; the exclusion guard holds for
+   a dot text that does not start with "/" and fails for one that does *)
+Definition escapable_path : list sseg :=
+  [ ((Some TKey, AStr every_escapable), plain_style);
+    ((Some TKey, AStr every_escapable), mkstyle (Some DQ) false false "/"%char);
+    ((Some TSearch, ASearch true MContains every_escapable "a.b/c(d)e[f]g^h$i%j k'l""m"), mkstyle (Some SQ) false true "/"%char);
+    ((Some TSearch, ASearch false MRegex "x" "^a/b|c#d@e,f;g:h$"), mkstyle None false false "~"%char) ].
+
+Example C08_canonical_nonvacuous :
+  wfc Dot (sample_path ++ escapable_path) = true /\ wfc Slash (sample_path ++ escapable_path) = true
+  /\ dot_text_ok Dot (render_ref Dot (sample_path ++ escapable_path)) = true
+  /\ (exists c, canon Dot (render_ref Slash escapable_path) = Ok c /\ nonblank c = true /\ dot_text_ok Dot c = true)
+  /\ dot_text_ok Dot (render_ref Dot [((Some TKey, AStr "/"), mkstyle (Some DQ) false false "/"%char)]) = true
+  /\ canon Dot (render_ref Dot [((Some TKey, AStr "/"), mkstyle (Some DQ) false false "/"%char)]) = Ok "/"
+  /\ dot_text_ok Dot "/" = false.
+Proof. vm_compute. repeat split; try reflexivity. eexists. repeat split; reflexivity. Qed.
+
+Example C08_eq_nonvacuous :
+  forallb no_dot_key [((Some TKey, AStr "a\b/c(d)e[f]g^h$i%j k'l""m"), plain_style)] = true
+  /\ wfc Dot [((Some TKey, AStr "a\b/c(d)e[f]g^h$i%j k'l""m"), plain_style)] = true
+  /\ forallb no_dot_key sample_searches = true.
 Proof. vm_compute. repeat split; reflexivity. Qed.
 
 (* clauses 2-4 on instances (tests, by computation) *)
